@@ -6,7 +6,7 @@ then runs the listed checks (default: the target property) with PYTTB_SRC=<patch
 /verif/seeded/<PID>-<i>/{patch.diff,demo.py,notes.md,meta.json}."""
 import argparse, json, os, shutil, subprocess, sys, tempfile, time
 ap = argparse.ArgumentParser(); ap.add_argument("wt"); ap.add_argument("pid"); ap.add_argument("--props"); ap.add_argument("--tier", default="quick")
-ap.add_argument("--only")
+ap.add_argument("--only"); ap.add_argument("--tag", default="")
 a = ap.parse_args()
 props = (a.props or a.pid).split(",")
 ENV = dict(os.environ, MPLBACKEND="Agg", PYTHONDONTWRITEBYTECODE="1", OMP_NUM_THREADS="1")
@@ -17,6 +17,8 @@ def run(cmd, cwd, env, timeout=1800):
 RESEED = os.path.exists(os.path.join(a.wt, "patch.diff"))   # re-evaluate a stored /verif/seeded/<PID>-<i> directory
 if RESEED:
     outs = [os.path.basename(a.wt.rstrip("/")).split("-", 1)[1]]
+    if "-" in outs[0]:
+        a.tag, outs[0] = outs[0].rsplit("-", 1)
 else:
     outs = sorted(d for d in os.listdir(os.path.join(a.wt, "out")) if os.path.isdir(os.path.join(a.wt, "out", d)))
 for i in outs:
@@ -24,7 +26,8 @@ for i in outs:
     src = a.wt if RESEED else os.path.join(a.wt, "out", i)
     work = tempfile.mkdtemp(prefix="pyttb_seed_", dir="/tmp")
     clean, mut = os.path.join(work, "clean"), os.path.join(work, "mut")
-    meta = {"id": f"{a.pid}-{i}", "property": a.pid, "source": "independent sub-agent given only the property text and a scratch worktree"}
+    sid = f"{a.pid}-{a.tag + '-' if a.tag else ''}{i}"
+    meta = {"id": sid, "property": a.pid, "source": "independent sub-agent given only the property text and a scratch worktree"}
     try:
         copy_repo(clean); copy_repo(mut)
         r = run(["patch", "-p1", "-s", "-i", os.path.join(src, "patch.diff")], mut, ENV)
@@ -40,7 +43,7 @@ for i in outs:
         meta["demo_exit_with_change"] = r1.returncode; meta["demo_exit_without_change"] = r0.returncode
         confirmed = ("208 passed" in tail) and r1.returncode != 0 and r0.returncode == 0
         meta["confirmed"] = confirmed
-        print(f"[{a.pid}-{i}] doctests: {tail} | demo with={r1.returncode} without={r0.returncode} | confirmed={confirmed}")
+        print(f"[{sid}] doctests: {tail} | demo with={r1.returncode} without={r0.returncode} | confirmed={confirmed}")
         res = {}
         for p in props:
             t0 = time.time()
@@ -57,7 +60,7 @@ for i in outs:
         except OSError:
             pass
         if confirmed:
-            dst = os.path.join("/verif/seeded", f"{a.pid}-{i}")
+            dst = os.path.join("/verif/seeded", sid)
             os.makedirs(dst, exist_ok=True)
             try:
                 old = json.load(open(os.path.join(dst, "meta.json")))
